@@ -249,17 +249,7 @@ func runC20(c *Ctx) {
 	// (`func (dsc Discipline[Type]) Stop()`); the call through the pointer compiles all the same
 	r.Doc("H10", "every method of a discipline struct has a pointer receiver (a value receiver copies all fields, unsynchronised, at each call)", 120)
 	for _, p := range []*Prog{c.V1, c.V2} {
-		for _, d := range p.Discs() {
-			for i := 0; i < d.Named.NumMethods(); i++ {
-				m := d.Named.Method(i)
-				sig, _ := m.Type().(*types.Signature)
-				if sig == nil || sig.Recv() == nil {
-					continue
-				}
-				_, isPtr := sig.Recv().Type().(*types.Pointer)
-				r.Check(isPtr, "H10", p.Name+":"+d.Name+"."+m.Name()+"#receiver", p.Pos(m.Pos()), "pointer receiver", "method "+m.Name()+" of "+d.Name+" has a value receiver: every call copies the whole struct in the caller's goroutine while the discipline's goroutine writes its fields (a data race inside the library)")
-			}
-		}
+		checkPointerReceivers(c, p, "H10", func(*Disc) bool { return true })
 	}
 	// H7 (= E4): the release channel is closed by the scheduler's defers; a Release call is ordered
 	// before that close only by the scheduler having received it - the deferred wait leaves only
@@ -683,4 +673,24 @@ func dedup(xs []string) []string {
 		}
 	}
 	return out
+}
+
+// checkPointerReceivers (C20/H10, C08/K6): every method of the selected discipline structs has a
+// pointer receiver. A value receiver works on a copy of the struct: the copy is an unsynchronised
+// read of every field (H10), and whatever the method records - `unreleased = true` - is lost (K6).
+func checkPointerReceivers(c *Ctx, p *Prog, rule string, sel func(*Disc) bool) {
+	for _, d := range p.Discs() {
+		if !sel(d) {
+			continue
+		}
+		for i := 0; i < d.Named.NumMethods(); i++ {
+			m := d.Named.Method(i)
+			sig, _ := m.Type().(*types.Signature)
+			if sig == nil || sig.Recv() == nil {
+				continue
+			}
+			_, isPtr := sig.Recv().Type().(*types.Pointer)
+			c.R.Check(isPtr, rule, p.Name+":"+d.Name+"."+m.Name()+"#receiver", p.Pos(m.Pos()), "pointer receiver", "method "+m.Name()+" of "+d.Name+" has a value receiver: every call copies the whole struct (an unsynchronised read of every field the goroutine writes), and what the method stores into the copy - a flag, the buffer - is lost")
+		}
+	}
 }
